@@ -51,7 +51,7 @@ profile("C05", tx=dict(edit=3, enum=8, symnum=2, derive_edit=2, wlpair=4, build=
         callers=(2, 4))
 profile("C06", tx=dict(edit=3, enant=6, derive_edit=2, build=2), small=True, max_atoms=(2, 7),
         classes=("SMG", "SCRG"))
-profile("C08", tx=dict(edit=2, react=8, build=1), classes=("MG", "SMG", "CRG", "SCRG"), max_atoms=(3, 8))
+profile("C08", tx=dict(edit=2, react=8, derive_edit=2, build=1), classes=("MG", "SMG", "CRG", "SCRG"), max_atoms=(3, 8))
 profile("C15", tx=dict(edit=5, persist=8, query=1, relabel=1, build=2))
 profile("C16", tx=dict(edit=3, pair=4, mutant=4, flip=4, isomers=4, react=2, build=3), small=True, max_atoms=(2, 8),
         callers=(2, 3))
@@ -873,6 +873,40 @@ class Gen:
             mp = {a: a for a in keys}
         return [[a, b] for a, b in sorted(mp.items())]
 
+    def targeted_edit(self, s):
+        """an edit that mutates a nested container in place - the places where
+        state shared between a graph and its derivative shows"""
+        rng = self.rng
+        m = self.w.slots[s].model
+        c = []
+        for a, t in sorted(m.achange.items()):
+            for r in sorted(t):
+                c.append(dict(k="del_achange", s=s, a=a, role=r))
+                for x in geom.desc_atoms(t[r])[1:]:
+                    if x in m.atoms:
+                        c.append(dict(k="remove_atom", s=s, a=x))
+        for b, t in sorted(m.bchange.items(), key=lambda kv: tuple(sorted(kv[0]))):
+            x, y = sorted(b)
+            for r in sorted(t):
+                c.append(dict(k="del_bchange", s=s, a=x, b=y, role=r))
+                for z in geom.desc_atoms(t[r]):
+                    if z in m.atoms and z not in b:
+                        c.append(dict(k="remove_atom", s=s, a=z))
+        for a in m.sorted_atoms()[:6]:
+            c.append(dict(k="set_atom_attr", s=s, a=a, key=rng.choice(ATTR_KEYS), val=rng.choice(ATTR_VALS)))
+            for key in sorted(m.atoms[a]):
+                if key != "atom_type":
+                    c.append(dict(k="del_atom_attr", s=s, a=a, key=key))
+        for x, y in m.sorted_bonds()[:6]:
+            c.append(dict(k="set_bond_attr", s=s, a=x, b=y, key=rng.choice(BATTR_KEYS), val=rng.choice(ATTR_VALS)))
+            for key in sorted(m.bonds[B(x, y)]):
+                if key != "reaction":
+                    c.append(dict(k="del_bond_attr", s=s, a=x, b=y, key=key))
+            c.append(dict(k="remove_bond", s=s, a=x, b=y))
+        if not c:
+            return self.rand_mutator(s)
+        return rng.choice(c)
+
     def tx_derive_edit(self):
         rng = self.rng
         c = self.graphs()
@@ -892,9 +926,12 @@ class Gen:
             sl = self.w.graph(side)
             if sl is None or sl.locks:
                 continue
-            if rng.random() < 0.12:
+            r = rng.random()
+            if r < 0.12:
                 m = sl.model
                 yield dict(k="relabel", src=side, dst=None, map=self.rand_mapping(m), copy=False)
+            elif r < 0.5:
+                yield self.targeted_edit(side)
             else:
                 yield self.rand_mutator(side)
         if rng.random() < 0.3 and self.w.graph(dst) is not None and not self.w.slots[dst].locks:
@@ -1239,6 +1276,13 @@ class Gen:
                 if sl is None:
                     return
                 yield self.struct_edit(ts, sl.model, add_only=True)
+        if use_ts and stereo and rng.random() < 0.35:
+            sr, st = self.w.graph(r), self.w.graph(ts)
+            if sr is not None and st is not None and sr.model.astereo:
+                a = rng.choice(sorted(sr.model.astereo))
+                d = sr.model.astereo[a]
+                if a in st.model.atoms:
+                    yield dict(k="set_astereo", s=ts, d=model.list_desc((d[0], d[1], None)))
         kind = "SCRG" if stereo and rng.random() < 0.85 else "CRG"
         rx = self.slot_id()
         yield dict(k="from_graphs", r=r, p=p, ts=ts if use_ts else None, dst=rx, cls=kind)
@@ -1247,6 +1291,15 @@ class Gen:
         for q in ("get_formed_bonds", "get_broken_bonds", "get_fleeting_bonds", "active_atoms"):
             if rng.random() < 0.4:
                 yield dict(k="q", s=rx, q=q, layer=0)
+        if kind == "SCRG" and rng.random() < 0.5:
+            # hand-made changes (several roles on one centre) before decomposing / reversing
+            for _ in range(rng.randint(1, 3)):
+                sl = self.w.graph(rx)
+                if sl is None:
+                    return
+                op = self.change_op(rx, sl.model, rng.choice(("set_achange", "set_bchange")))
+                if op:
+                    yield op
         seq = []
         for _ in range(rng.randint(1, 4)):
             seq.append(rng.choice(("reactant", "product", "reverse", "reverse2")))
